@@ -174,7 +174,7 @@ def c11_set(ns):
 PROPS['C11'] = {
     'verus': ['u_segment'],
     'kani': {'quick': [kset('c11', c11_set([1, 2, 3, 4]))], 'thorough': [kset('c11', c11_set([1, 2, 3, 4]), timeout=6000)]},
-    'probe': False,
+    'probe': True,
     'level': 'other',
     'explanation': 'Per piece (Verus, unit u_segment, real bodies, ANY piece type satisfying the trait contracts): Segment::integral(knot) keeps the breakpoint, returns the piece\'s '
                    'indefinite integral moved vertically by a constant (antideriv_of) and its value at knot.x is knot.y; Segment::indefinite keeps the breakpoint and the zero constant; '
@@ -225,7 +225,7 @@ PROPS['C13'] = {
              'thorough': [kset('c13', c13_set([(1, 1), (1, 2), (2, 1), (2, 2), (1, 3), (3, 1), (2, 3), (3, 2), (3, 3)]) +
                                [H('c13_add_4_4', 'piecewise', 'operand sizes 4+4'), H('c13_sub_4_4', 'piecewise', 'operand sizes 4+4'),
                                 H('c13_add_2_4', 'piecewise', 'operand sizes 2+4'), H('c13_sub_4_2', 'piecewise', 'operand sizes 4+2')], timeout=10000)]},
-    'probe': False,
+    'probe': True,
     'level': 'proof',
     'explanation': 'Verus proves the real merge loops of `&f + &g` and `&f - &g` (unit u_merge; abstract piece type, operands of ANY size): under wfs(f), wfs(g) '
                    '(non-empty, non-NaN, non-decreasing ends) the loop terminates without panic (indexing, unwrap of partial_cmp, arithmetic) and the result r satisfies merged(f,g,r): '
@@ -261,7 +261,7 @@ def c15_set(ns):
 PROPS['C15'] = {
     'verus': ['u_segment'],
     'kani': {'quick': [kset('c15', c15_set([1, 2, 3, 4]), extra=['--solver', 'kissat'])], 'thorough': [kset('c15', c15_set([1, 2, 3, 4, 5, 8]), extra=['--solver', 'kissat'])]},
-    'probe': False,
+    'probe': True,
     'level': 'other',
     'explanation': 'Kani harnesses on the real Piecewise::{mul, mul_assign, neg, translate} and the Segment-level operations with recording OpTag pieces: '
                    'number of pieces, order and every breakpoint (any f64 bits) unchanged; every piece received the operation exactly once with the given '
